@@ -696,7 +696,7 @@ func c13RunB(o *out, input string) {
 // ---------- C13S ----------
 
 var c13Kinds = []string{"http-json", "http-json-gzip", "http-proto", "http-up-gzip", "http-up", "http-down",
-	"grpc", "grpc-gzip", "grpc-bidi", "grpc-bidi-gzip", "grpc-web", "blob-get", "blob-put", "grpc-cancel", "proxy-unary", "proxy-json", "http-path", "proxy-bidi", "proxy-bidi-fail", "proxy-bidi-gzip", "grpc-leftover"}
+	"grpc", "grpc-gzip", "grpc-bidi", "grpc-bidi-gzip", "grpc-web", "blob-get", "blob-put", "grpc-cancel", "proxy-unary", "proxy-json", "http-path", "proxy-bidi", "proxy-bidi-fail", "proxy-bidi-gzip", "grpc-leftover", "proxy-http-gzip-fail"}
 
 func (e *c13Env) post(path, ct, accept string, body []byte, gz bool) ([]byte, int, error) {
 	if gz {
@@ -854,6 +854,87 @@ func (e *c13Env) one(kind, id string, r *rng) string {
 			return fmt.Sprintf("%s id=%s err %v", kind, id, err)
 		}
 		return diff(out.Text, t)
+	case "proxy-http-gzip-fail":
+		// a proxied bidi method called over plain HTTP with a streamed, gzip-encoded body: the backend ends the call with
+		// its own status while the client is connected and silent (the proxy's request pump is inside the body's
+		// decompressor). A second request with a gzip body is then served by the same mux, and while that one is under way
+		// the first client's body ends. Neither request may see anything of the other.
+		pe := c13ProxySetup()
+		pr, pw := io.Pipe()
+		req, _ := http.NewRequest("POST", pe.lb.url+"/c13p.Svc/Bi", pr)
+		req.Header.Set("Content-Type", "application/json")
+		req.Header.Set("Content-Encoding", "gzip")
+		want := "fail:" + id
+		release := make(chan struct{})
+		go func() {
+			zw := gzip.NewWriter(pw)
+			zw.Write(jsonOf(want))
+			zw.Flush()
+			<-release
+			zw.Write(jsonOf(c13Text(id+".late", 600)))
+			zw.Close()
+			pw.Close()
+		}()
+		// (net/http answers only once the request body has ended or 256 KB of it were discarded: the first answer is read last)
+		type answer struct {
+			code int
+			body []byte
+			err  error
+		}
+		first := make(chan answer, 1)
+		go func() {
+			rsp, err := http.DefaultTransport.RoundTrip(req)
+			if err != nil {
+				first <- answer{err: err}
+				return
+			}
+			b, _ := io.ReadAll(rsp.Body)
+			rsp.Body.Close()
+			first <- answer{code: rsp.StatusCode, body: b}
+		}()
+		time.Sleep(80 * time.Millisecond) // the backend fails, the handler returns; the pump is inside the decompressor
+		var bad string
+		for i := 0; i < 3; i++ {
+			if i == 1 {
+				close(release) // the first client's body goes on and ends while the second request is being read
+			}
+			t2 := c13Text(fmt.Sprintf("%s.second.%d", id, i), 2000+c13Size(r)%20000)
+			req2, _ := http.NewRequest("POST", pe.lb.url+"/c13p.Svc/Un", bytes.NewReader(c13Gz(jsonOf(t2))))
+			req2.Header.Set("Content-Type", "application/json")
+			req2.Header.Set("Content-Encoding", "gzip")
+			rsp2, err := e.client.Do(req2)
+			if err != nil {
+				bad = fmt.Sprintf("%s id=%s second request err %v", kind, id, err)
+				break
+			}
+			b2, _ := io.ReadAll(rsp2.Body)
+			rsp2.Body.Close()
+			if rsp2.StatusCode != 200 {
+				bad = fmt.Sprintf("%s id=%s second request (gzip body) answered %d %q", kind, id, rsp2.StatusCode, b2)
+				break
+			}
+			got, _ := textOf(b2)
+			if bad = diff(got, t2); bad != "" {
+				break
+			}
+		}
+		if bad != "" {
+			select {
+			case <-release:
+			default:
+				close(release)
+			}
+			return bad
+		}
+		select {
+		case a := <-first:
+			if a.err != nil || a.code == 200 || !strings.Contains(string(a.body), want) {
+				return fmt.Sprintf("%s id=%s answered %d %q (%v), the backend returned DataLoss %q", kind, id, a.code, a.body, a.err, want)
+			}
+		case <-time.After(10 * time.Second):
+			return fmt.Sprintf("%s id=%s: no answer within 10 s of the end of the request body", kind, id)
+		}
+		return ""
 	case "proxy-bidi-gzip":
 		// a proxied bidi stream with per-message gzip in which the client keeps sending while replies
 		// come back: receiving and sending overlap on one stream (pump goroutine and reply loop)
@@ -1152,6 +1233,7 @@ func c13Gen(o *out, r *rng, tier string) {
 		c13Stress(o, "grpc-cancel", 8, 40, seed+4)
 		c13Stress(o, "grpc-leftover", 4, 60, seed+5)
 		c13Stress(o, "proxy-bidi-fail", 8, 40, seed+6)
+		c13Stress(o, "proxy-http-gzip-fail", 8, 40, seed+7)
 		return
 	case "race-thorough":
 		for i := uint64(0); i < 6; i++ {
